@@ -1,4 +1,8 @@
 import HioModel.Sched.LemmasC01
+import HioModel.Sched.Lemmas2C01
+import HioModel.Sched.Embed
+import HioModel.Sched.Embed3
+import HioModel.Sched.Thm3C01
 /-!
 # C01 — doer lifecycle
 
@@ -39,6 +43,26 @@ Theorems in this file (all for every input and every fuel):
                                 second recur raises KeyboardInterrupt (exit without abort).
 
 The two `_partial` theorems are not instances of the full ones (weaker id hypothesis, nothing about pools).
+
+## Second-generation model (`Hio.Sched2`, `Model2.lean`): exception kinds, failing enters of any kind, failing clean
+
+Only `Exception` (`Exn2.err`) runs the abort context; KeyboardInterrupt / SystemExit (`.kbint` / `.sysexit`) leave by
+`exit` alone, at a recur AND at an enter (known finding C01-K1).  A failing clean action (`cleanFails`) ends the doer
+by `clean, exit`, which is a legal ending.  Full statements, proved below for every input and every fuel:
+
+    theorem lifecycle_wf2 (pool specs : List (Sched2.Spec2 τ)) … :
+        (Sched2.Spec2.idsL specs ++ Sched2.Spec2.idsL pool).Nodup →   -- all ids of the program distinct (pools included)
+        Sched2.noPoolSelfRemove specs pool = true →                   -- no pool doer removes itself
+        Sched2.Spec2.onlyErrL specs = true →                          -- no BaseException anywhere: every `Out2.raise x`
+        Sched2.Spec2.onlyErrL pool = true →                           --   and every `EnterAct2.fail x` has `x = .err`
+        LifecycleWF false (Sched2.doistDo pool tock start limit fuel specs).evs       -- `cleanFails` flags arbitrary
+    theorem lifecycle_wf2_weak : the same without the two `onlyErrL` hypotheses (any kinds at steps and at enters, any
+        `cleanFails`), concluding `LifecycleWF true …`
+
+* `lifecycle_wf2`, `lifecycle_wf2_weak` — as above (`extend` / `remove` at run time, nested DoDoers with pools).
+* `lifecycle2_sysexit_skips_abort`        — C01-K1 witness: SystemExit in the second recur: `enter recur recur exit`.
+* `lifecycle2_kbint_in_enter_skips_abort` — C01-K1 witness: KeyboardInterrupt in the enter of the second top-level
+                                            doer: its projection is `enter exit`.
 -/
 namespace Hio.Sched
 variable {τ : Type} [Add τ] [LE τ] [DecidableRel (α := τ) (· ≤ ·)] [OfNat τ 0] [BEq τ]
@@ -157,5 +181,122 @@ theorem lifecycle_fails_when_pool_doer_removes_itself :
   have h1 := h 5
   revert h1
   decide
+
+/-! ### second-generation model (`Hio.Sched2`) -/
+
+/-- C01 on Model2, strict automaton: everything raised (by a recur, by an enter, at any depth, pools included) is an
+`Exception`; `cleanFails` flags are arbitrary. -/
+theorem lifecycle_wf2 (pool : List (Sched2.Spec2 τ)) (tock start : τ) (limit : Option τ) (fuel : Nat)
+    (specs : List (Sched2.Spec2 τ)) :
+    (Sched2.Spec2.idsL specs ++ Sched2.Spec2.idsL pool).Nodup → Sched2.noPoolSelfRemove specs pool = true →
+    Sched2.Spec2.onlyErrL specs = true → Sched2.Spec2.onlyErrL pool = true →
+    LifecycleWF false (Sched2.doistDo pool tock start limit fuel specs).evs :=
+  fun hN hS hK1 hK2 => Sched2.lifecycle_of_static false pool tock start limit fuel specs hN hS (Or.inr ⟨hK1, hK2⟩)
+
+/-- C01 on Model2, weak automaton: any exception kinds at steps and at enters, any `cleanFails`. -/
+theorem lifecycle_wf2_weak (pool : List (Sched2.Spec2 τ)) (tock start : τ) (limit : Option τ) (fuel : Nat)
+    (specs : List (Sched2.Spec2 τ)) :
+    (Sched2.Spec2.idsL specs ++ Sched2.Spec2.idsL pool).Nodup → Sched2.noPoolSelfRemove specs pool = true →
+    LifecycleWF true (Sched2.doistDo pool tock start limit fuel specs).evs :=
+  fun hN hS => Sched2.lifecycle_of_static true pool tock start limit fuel specs hN hS (Or.inl rfl)
+
+/-- C01-K1 witness: a SystemExit in the second recur of doer 1 gives `enter recur recur exit` (no abort). -/
+theorem lifecycle2_sysexit_skips_abort :
+    ¬ LifecycleWF false
+      (Sched2.doistDo [] 1 0 none 10
+        [Sched2.Spec2.leaf 1 .ok [⟨[], .yieldT (some 0)⟩, ⟨[], .raise .sysexit⟩] false] : Sched2.Final2 Nat).evs := by
+  intro h
+  have h1 := h 1
+  revert h1
+  decide
+
+/-- C01-K1 witness: a KeyboardInterrupt in the enter of the second top-level doer: its projection is `enter exit`. -/
+theorem lifecycle2_kbint_in_enter_skips_abort :
+    ¬ LifecycleWF false
+      (Sched2.doistDo [] 1 0 none 10
+        [Sched2.Spec2.leaf 1 .ok [⟨[], .yieldT (some 0)⟩] false,
+         Sched2.Spec2.leaf 2 (.fail .kbint) [] false] : Sched2.Final2 Nat).evs := by
+  intro h
+  have h1 := h 2
+  revert h1
+  decide
+
+/-- non-vacuity: a doer (1) and a DoDoer (2) whose clean actions fail -/
+def c01CleanLeaf : List (Sched2.Spec2 Nat) := [.leaf 1 .ok [⟨[], .yieldT none⟩, ⟨[], .ret none⟩] true]
+def c01CleanGroup : List (Sched2.Spec2 Nat) := [.group 2 0 false [.leaf 3 .ok [⟨[], .ret none⟩] false] [] true]
+
+/-- they satisfy the hypotheses of the STRICT theorem `lifecycle_wf2` -/
+example : let specs := c01CleanGroup ++ c01CleanLeaf
+    (Sched2.Spec2.idsL specs ++ Sched2.Spec2.idsL ([] : List (Sched2.Spec2 Nat))).Nodup ∧
+    Sched2.noPoolSelfRemove specs [] = true ∧ Sched2.Spec2.onlyErrL specs = true := by decide
+
+/-- and run `clean, exit` (no abort), after which do() raises the Exception -/
+example : let f := Sched2.doistDo [] 1 0 none 10 c01CleanLeaf
+    countK .clean 1 f.evs = 1 ∧ countK .exit 1 f.evs = 1 ∧ countK .abort 1 f.evs = 0 ∧ f.raised = some .err := by
+  decide
+example : let f := Sched2.doistDo [] 1 0 none 10 c01CleanGroup
+    countK .clean 2 f.evs = 1 ∧ countK .exit 2 f.evs = 1 ∧ countK .abort 2 f.evs = 0 ∧ countK .clean 3 f.evs = 1 ∧
+      f.raised = some .err := by
+  decide
+
+/-- `onlyErrL` is not vacuous: it rejects both witness programs, which satisfy the hypotheses of `lifecycle_wf2_weak` -/
+example : Sched2.Spec2.onlyErrL
+      ([.leaf 1 .ok [⟨[], .yieldT (some 0)⟩, ⟨[], .raise .sysexit⟩] false] : List (Sched2.Spec2 Nat)) = false ∧
+    Sched2.Spec2.onlyErrL
+      ([.leaf 1 .ok [⟨[], .yieldT (some 0)⟩] false, .leaf 2 (.fail .kbint) [] false] : List (Sched2.Spec2 Nat)) = false := by
+  decide
+
+/-! ### the three model generations describe the same runs
+
+`Model` (first generation: everything proved in C02–C06 and in C03/C04/C30), `Model2` (exception kinds, failing clean
+actions) and `Model3` (ops issued from cease / exit actions) agree wherever the newer script data is absent, so a
+theorem about an older model speaks about the same events as the newer one. -/
+section generations
+variable {τ : Type} [Add τ] [LE τ] [DecidableRel (α := τ) (· ≤ ·)] [OfNat τ 0] [BEq τ]
+
+/-- Model2 on scripts without exception kinds / action faults IS Model: events, done, tyme, doers, cycles, raised -/
+theorem model2_is_model_on_old_scripts (pool : List (Spec τ)) (tock start : τ) (limit : Option τ) (fuel : Nat)
+    (specs : List (Spec τ)) :
+    let f := Hio.Sched.doistDo pool tock start limit fuel specs
+    let g := Hio.Sched2.doistDo (Hio.Sched2.embSpecL pool) tock start limit fuel (Hio.Sched2.embSpecL specs)
+    g.evs = f.evs ∧ g.done = f.done ∧ g.tyme = f.tyme ∧ g.fuelOut = f.fuelOut ∧ g.doers = f.doers ∧ g.cycles = f.cycles
+      ∧ (g.raised = if f.raised then some .err else none) :=
+  Hio.Sched2.doistDo_embed pool tock start limit fuel specs
+
+/-- Model3 on scripts without close-time ops, when no close ran out of its fuel, IS Model2 (all fields of the result) -/
+theorem model3_is_model2_without_close_ops (cf : Nat) (pool : List (Hio.Sched2.Spec2 τ)) (tock start : τ)
+    (limit : Option τ) (fuel : Nat) (specs : List (Hio.Sched2.Spec2 τ)) :
+    let g := Hio.Sched3.doistDo cf (Hio.Sched3.emb3SpecL pool) tock start limit fuel (Hio.Sched3.emb3SpecL specs)
+    g.starved = false → g.toFinal2 = Hio.Sched2.doistDo pool tock start limit fuel specs :=
+  Hio.Sched3.doistDo3_embed cf pool tock start limit fuel specs
+
+end generations
+
+/-! ### third generation (`Hio.Sched3`): ops issued from cease / exit actions
+
+Full statement wanted: `lifecycle_wf3(_weak)` for every program whose step- AND close-time ops avoid the double-entry
+hazards (a doer that left `.doers` while still scheduled / waiting to be closed is entered again by an `extend`).
+Proved (`HioModel/Sched/Thm3C01.lean`) under the stronger static guard `closeOpsRemoveNonPool3`: close-time ops are
+`remove`s only and name no pool doer of the doer's own scheduler (both parts are shown necessary in some form by
+`example`s there: a cease action that extends, and a cease action that removes the running pool doer).  Missing:
+close-time `extend`, close-time `remove` of non-running pool doers, self-removal from an exit action — they need
+the waiting `rdeeds` and the running doer inside the invariant.  `starved = false`: the model's close fuel sufficed. -/
+section generation3
+variable {τ : Type} [Add τ] [LE τ] [DecidableRel (α := τ) (· ≤ ·)] [OfNat τ 0] [BEq τ]
+theorem lifecycle_wf3_weak_partial (cf : Nat) (pool : List (Hio.Sched3.Spec3 τ)) (tock start : τ) (limit : Option τ)
+    (fuel : Nat) (specs : List (Hio.Sched3.Spec3 τ)) :
+    (Hio.Sched3.Spec3.idsL specs ++ Hio.Sched3.Spec3.idsL pool).Nodup → Hio.Sched3.noPoolSelfRemove3 specs pool = true →
+    Hio.Sched3.closeOpsRemoveNonPool3 specs pool = true → (Hio.Sched3.doistDo cf pool tock start limit fuel specs).starved = false →
+    LifecycleWF true (Hio.Sched3.doistDo cf pool tock start limit fuel specs).evs :=
+  Hio.Sched3.lifecycle_wf3_weak cf pool tock start limit fuel specs
+
+theorem lifecycle_wf3_partial (cf : Nat) (pool : List (Hio.Sched3.Spec3 τ)) (tock start : τ) (limit : Option τ)
+    (fuel : Nat) (specs : List (Hio.Sched3.Spec3 τ)) :
+    (Hio.Sched3.Spec3.idsL specs ++ Hio.Sched3.Spec3.idsL pool).Nodup → Hio.Sched3.noPoolSelfRemove3 specs pool = true →
+    Hio.Sched3.closeOpsRemoveNonPool3 specs pool = true → Hio.Sched3.Spec3.onlyErrL specs = true → Hio.Sched3.Spec3.onlyErrL pool = true →
+    (Hio.Sched3.doistDo cf pool tock start limit fuel specs).starved = false →
+    LifecycleWF false (Hio.Sched3.doistDo cf pool tock start limit fuel specs).evs :=
+  Hio.Sched3.lifecycle_wf3 cf pool tock start limit fuel specs
+end generation3
 
 end Hio.Sched
